@@ -3,7 +3,7 @@
 Tie B: Model/Catalog.lean (hand-written) against reading.py on generated
 simulation trees + random call sequences (returned dicts and the bytes of
 iterations.txt / content.txt after every call), on fuzzed iterations.txt
-texts, on collect_overall_iterations inputs, on np.linspace membership, and
+texts, on collect_overall_iterations inputs, on the range membership test, and
 the three regex matchers differentially against Python `re`.
 Search oracle: the generator's own ground truth for the tree it wrote
 (variables, ranges, strides, checkpoints), parse-back of the files, fresh
@@ -109,7 +109,8 @@ BENIGN = ["simA", "bhb_q1", "run-07", "test_proc", "X", "lcdm.128"]
 ADVERSARIAL = ["my restart run", "a->b", "x rl = 3 y", "it's", 'q"uote', "a,b, c", "restart", "new restart 3",
                "3D variables available", "Checkpoints available at its", "out = [5]", "np.arange(1, 2, 3)",
                " === restart 7", "=== restart 2", "a -> 1 -> 2", "rl = 0 at it = [4]", "tab\there", "é_sim",
-               "checkpoint.chkpt", "x.file_0.y", "semi;colon", "back\\slash", "output-0003", ".h5", "a b"]
+               "checkpoint.chkpt", "x.file_0.y", "semi;colon", "back\\slash", "output-0003", ".h5", "a b",
+               "sim[1]", "a*b", "q?x", "[ab]", "s === restart 7", "Reading iterations in: x", "x rl = 3 [7]"]
 SINGLE_VARS = ["alp", "betax", "betay", "betaz", "rho", "vel[0]", "vel[1]", "vel[2]", "gxx", "W", "myvar_2",
                "NaNmask", "dtalp", "trK", "eps", "H", "Psi4r", "kxx"]
 GROUPS = {  # thorn-group -> (THORN, variables)
@@ -725,8 +726,6 @@ def correspondence(ctx, reading):
         for i in range(nsims):
             adversarial = (i % 3 == 2)
             plan = gen_sim(ctx, adversarial)
-            if any(ch in plan["name"] for ch in "[*?"):
-                continue
             sub = os.path.join(root, "s%d" % i)
             os.makedirs(sub)
             tree = Tree(ctx, plan, sub)
@@ -798,11 +797,16 @@ def correspondence(ctx, reading):
             x = a + round(i * (b - a) / (n - 1)) + ctx.rng.choice([0, 0, 0, 1, -1])
         else:
             x = a + ctx.rng.randint(-2, b - a + 2)
-        lines.append("lin %d %d %d %d" % (x, a, b, n))
-        exp.append("1" if x in np.linspace(a, b, n) else "0")
+        if ctx.rng.random() < 0.1:
+            n = -n
+        lines.append("rng %d %d %d %d" % (x, a, b, n))
+        try:
+            exp.append("1" if x in range(int(a), int(b) + 1, int(n)) else "0")
+        except ValueError:
+            exp.append("err ValueError")
     dist["read_iterations_texts"] = ntext
     dist["overall_inputs"] = nov
-    dist["linspace_queries"] = nlin
+    dist["range_queries"] = nlin
     ctx.cov["correspondence_distribution"] = dist
     try:
         outs = ctx.run_driver("Driver/C18.lean", lines)
@@ -854,8 +858,10 @@ def regex_differential(ctx, reading):
 
 
 def excluded_points(ctx, reading):
-    """Run the real code at the points excluded by the hypotheses of T2:
-    simulation names containing the markers the classifier looks for."""
+    """Corpus of former findings (all fixed in the code; must pass now):
+    simulation names containing the markers the classifier looks for, glob
+    metacharacters, 'checkpoint.chkpt'; single-iteration restarts next to a
+    range; plus the sentinel for skip_last."""
     found = 0
     names = [("a->b", "arrow"), ("x rl = 3 y", "rl-marker"), ("s === restart 7", "restart-marker"),
              ("3D variables available", "vars-marker"), ("Checkpoints available at its", "chk-marker"),
